@@ -33,3 +33,16 @@ Lemma remove_verdict_resurrects :
   let out := snd (run as_is (db_init MPlain [(c18_name, c18_rule)]) c18_witness) in
   nth 6 out (Ox ObOk) = Ox (ObOpt None) /\ nth 9 out (Ox ObOk) = Ox (ObOpt (Some [170%N])).
 Proof. vm_compute. split; reflexivity. Qed.
+
+(* second face of the same defect (E17), for C04: a key deleted by an INGESTED tombstone (not journaled) comes back after
+   a reopen once a last-level compaction has evicted the tombstone together with the value it hid: the keyspace's
+   highest persisted seqno falls below the journal record of the value, which is then replayed *)
+Definition c04_witness : list op :=
+  [OKs 0 c18_name; OPut 0 [96%N] [0%N]; OPut 0 [97%N] [170%N]; OIngest 0 [ITomb [97%N]]; OMajor 0;
+   OGet VwNone 0 [97%N];            (* position 5: deleted, reads None *)
+   OReopen; OKs 0 c18_name;
+   OGet VwNone 0 [97%N]].           (* position 8: the old value is back *)
+Lemma ingested_tombstone_resurrects :
+  let out := snd (run as_is (db_init MPlain []) c04_witness) in
+  nth 5 out (Ox ObOk) = Ox (ObOpt None) /\ nth 8 out (Ox ObOk) = Ox (ObOpt (Some [170%N])).
+Proof. vm_compute. split; reflexivity. Qed.
